@@ -353,7 +353,7 @@ pub fn gen_src(rng: &mut Rng, p: &mut Prog, wild: bool) -> Src {
 }
 
 pub fn gen_dst(rng: &mut Rng, p: &mut Prog, wild: bool, avoid: Option<u8>) -> Dst {
-    let mut pick_reg = |rng: &mut Rng| loop {
+    let pick_reg = |rng: &mut Rng| loop {
         let r = rng.below(3) as u8;
         if Some(r) != avoid {
             return r;
